@@ -172,6 +172,9 @@ func (sc *Scheduler) Schedule(ctx context.Context, g *ExecutionGraph, done chan 
 							node.setStatus(NodeStatusCancel)
 							sc.setLastError(execErr)
 						case sc.isCanceled():
+							// A repeating step is not signalled on stop, so it is
+							// still labelled running here.
+							node.setStatus(NodeStatusCancel)
 							sc.setLastError(execErr)
 						case node.data.Step.RetryPolicy != nil && node.data.Step.RetryPolicy.Limit > node.getRetryCount():
 							// retry
